@@ -271,6 +271,9 @@ def v_str(*a, **k):
         if _real_isinstance(x, SymInt):
             return vtypes._dec_digits(x, 0) if (x.lo is not None and x.lo >= 0) else str(cur().concretize(x))
         if _real_isinstance(x, (VBytes, VByteArray)):
+            st = getattr(type(x), '__str__', None)
+            if st is not None and st is not object.__str__:
+                return st(x)
             return repr(x)
         if _real_isinstance(x, BaseException):
             # exception text may have been built from an opaque format
